@@ -448,6 +448,28 @@ const (
 	stKinds
 )
 
+func init() { vReg("H_C11_startrace", H_C11_startrace) }
+
+// C11 / C12: Stop racing with Run's start-up (no connections): every spawn order plus one
+// preemption at any synchronisation point; both return, Run with nil, nothing stays bound.
+func H_C11_startrace() {
+	vSchedFork(1)
+	vPreemptBudget(1 + vLen("extraPreemption", 1))
+	v := vNewSrv()
+	if vBool("stopFirst") {
+		v.goStop()
+		v.goRun()
+	} else {
+		v.goRun()
+		v.goStop()
+	}
+	vQuiesce()
+	vAssertE(v.ranStop, "Stop returns")
+	vAssertE(v.ranRun && v.runErr == nil, "Run returns nil once the server was stopped")
+	vAssertE(vEnvListenerOpen() == 0, "no listening socket is left open")
+	vReach("start race")
+}
+
 // C11: Stop returns whatever clients are doing; Run then returns nil.
 func H_C11_stop() {
 	state := vLen("state", stKinds-1)
@@ -650,7 +672,9 @@ func H_C17_ready() {
 	served := false
 	tlsWanted := false
 	vAssume(v.mux.Delete(func(w *ResponseWriter, r *Request) {
-		served = true
+		if r.message.GetID() == 1 {
+			served = true // the probing client's request (earlier connections use other message IDs)
+		}
 		if tlsWanted {
 			vAssertE(vTLSConfigOf(r.conn.netConn) != nil, "with a TLS configuration a handler runs only on a TLS connection")
 		}
@@ -693,6 +717,17 @@ func H_C17_ready() {
 		if vBool("acceptErrorFirst") {
 			vEnvAcceptTempErr() // a connection attempt that hits descriptor exhaustion; the next one must be served
 		}
+		var og *vGateT
+		if !withTLS && ai == 0 && polled == 0 && vBool("slowOnCloseOfEarlierConnection") {
+			// an earlier connection has ended and the application's OnClose callback for it is
+			// still running (slow, or itself waiting for something): new clients are served meanwhile
+			og = vGate("slow OnClose")
+			v.s.onCloseHandler = func(id int) { vGateWait(og) }
+			c0 := vNetConn("c0")
+			vConnFeed(c0, vWire(refEnvelope(9, refDeleteOp(), nil)))
+			vEnvAccept(c0)
+			vQuiesce()
+		}
 		if withTLS && vBool("silentPeerFirst") {
 			// another peer connected just before and never sends its ClientHello
 			// (no timeouts are configured): it must not keep later clients from being served
@@ -703,6 +738,9 @@ func H_C17_ready() {
 		vEnvAccept(nc)
 		vQuiesce()
 		vAssertE(served, "a connection attempt made while Ready() is true is served")
+		if og != nil {
+			vGateOpen(og)
+		}
 		v.goStop()
 		vQuiesce()
 		vAssertE(v.ranRun && v.runErr == nil, "Run returns nil after Stop")
@@ -849,6 +887,11 @@ func H_C15_server() {
 	}
 	vConnFeed(c1, vWire(refEnvelope(3, refDeleteOp(), nil)))
 	vConnFeed(c2, vWire(refEnvelope(1, refDeleteOp(), nil)))
+	if vBool("unroutedRequests") {
+		// requests no route matches (and no default route): gldap answers them itself, on both connections
+		vConnFeed(c1, vWire(refEnvelope(4, refApp(ApplicationModifyRequest, refOctet("cn=u"), refSeq()), nil)))
+		vConnFeed(c2, vWire(refEnvelope(2, refApp(ApplicationModifyRequest, refOctet("cn=u"), refSeq()), nil)))
+	}
 	if vBool("clientsStayConnected") {
 		// both clients idle at Stop time: the shutdown paths of live connections run
 		vConnFeedBlock(c1)
